@@ -3,7 +3,7 @@
    Definitions only.
 
    A program is a list of loads (one caption memory each: ENM RCL rows EOC); a row is a preamble address code
-   (row 1..15, indent 0,4,..,28, optional tab offset 1..3, optional italics attribute) followed by items. *)
+   (row 1..15, indent 0,4,..,28, optional tab offset 1..3, attribute bits rw_style 0..15) followed by items. *)
 From Coq Require Import List ZArith QArith Qabs Bool.
 From PV Require Import lib.Sx lib.Str lib.Result spec.Spec608.
 Import ListNotations.
@@ -255,8 +255,9 @@ Fixpoint no_mid_after_full (l : load) : bool :=
   | _ => true
   end.
 
+(* (no_mid_after_full was part of load_wf until the reader stripped trailing blanks before a repositioning too) *)
 Definition load_wf (l : load) : bool :=
-  match l with [] => false | _ => forallb row_ok l && distinct (map rw_row l) && no_mid_after_full l end.
+  match l with [] => false | _ => forallb row_ok l && distinct (map rw_row l) end.
 
 (* before fix #22 the position tracker of the reader was shared by all loads: a load whose first row equals, or is
    one below, the last row addressed by the previous load was positioned relative to the previous caption. The
@@ -270,6 +271,58 @@ Fixpoint loads_independent (ls : list load) (prev_last : option Z) : bool :=
       (match prev_last with Some p => negb ((first =? p) || (first =? p + 1)) | None => true end)
       && loads_independent t (Some lastr)
   end.
+
+(* ---- the wider domain on which the harness evaluates the oracle (the theorems are stated on dom_c05 / load_wf). The 608
+        screen semantics above (row_cells, group_rows) already covers: blanks at either end of a row, a blank right after a
+        mid-row code, a backspace with nothing to erase in its row (no effect on a 608 screen), two backspaces in a row, the
+        transparent space (a blank), a row number used twice in a load in chunks that do not overlap, at least four columns apart (a new caption).
+        Still excluded (each counted by the harness): a backspace that lands on the cell of a mid-row code (it would erase
+        the attribute cell), an immediately repeated special character (the second copy is the redundancy copy), the same row addressed
+        again within three columns or over cells already written (read as a tab offset / overwrite), PAC PAC TO TO. --------------------------------------- *)
+Fixpoint items_ok_wide (its : list item) (prev : option item) : bool :=
+  match its with
+  | [] => true
+  | it :: t =>
+      (match it with
+       | Ch c => is_basic c
+       | Sp i => (0 <=? i) && (i <? 16) && negb (match prev with Some (Sp j) => i =? j | _ => false end)
+       | Ext s g i => is_basic s && negb (s =? 32) && (0 <=? g) && (g <=? 1) && (0 <=? i) && (i <? 32)
+       | Mid a => (0 <=? a) && (a <? 16)
+       | Bs => match prev with Some (Mid _) => false | _ => true end
+       end) && items_ok_wide t (Some it)
+  end.
+(* no backspace ever lands on the cell of a mid-row code, directly or after erasing the cells written since (the reader keeps
+   no cell for a non-italics mid-row code, so the erased cell would be ambiguous; counted by the harness) *)
+Fixpoint bs_clear_of_mid (its : list item) (st : list bool) : bool :=
+  match its with
+  | [] => true
+  | Bs :: t => match st with [] => bs_clear_of_mid t [] | m :: st' => negb m && bs_clear_of_mid t st' end
+  | Mid _ :: t => bs_clear_of_mid t (true :: st)
+  | _ :: t => bs_clear_of_mid t (false :: st)
+  end.
+Definition row_ok_wide (r : row) : bool :=
+  let cs := cells_of r in
+  (1 <=? rw_row r) && (rw_row r <=? 15) && mem (rw_indent r) indents_608 && (0 <=? rw_tab r) && (rw_tab r <=? 3)
+  && (0 <=? rw_style r) && (rw_style r <? 16) && ((rw_indent r =? 0) || (rw_style r <=? 1))
+  && items_ok_wide (rw_items r) None && bs_clear_of_mid (rw_items r) []
+  && existsb cell_vis cs
+  && (rw_indent r + rw_tab r + Z.of_nat (length cs) <=? 32).
+(* a screen row used twice in a load: the later chunk starts clear of the earlier one (no overwriting) and its preamble
+   column is not the earlier chunk's column + 0..3 (that would read as a tab offset, not as a new position) *)
+Fixpoint rows_apart (l : load) : bool :=
+  match l with
+  | [] => true
+  | r :: t => forallb (fun r' =>
+                 let c := rw_indent r + rw_tab r in let c' := rw_indent r' + rw_tab r' in
+                 negb (rw_row r =? rw_row r')
+                 || (((c + Z.of_nat (length (cells_of r)) <=? c') || (c' + Z.of_nat (length (cells_of r')) <=? c))
+                     && (4 <=? Z.abs (c - c'))
+                     && negb ((c <=? rw_indent r') && (rw_indent r' <=? c + 3)))) t
+              && rows_apart t
+  end.
+Definition load_wf_wide (l : load) : bool := match l with [] => false | _ => forallb row_ok_wide l && rows_apart l end.
+Definition dom_c05_wide (p : program) : bool :=
+  match pg_loads p with [] => false | _ => forallb load_wf_wide (pg_loads p) end.
 
 Definition dom_c05 (p : program) : bool :=
   match pg_loads p with [] => false | _ => forallb load_wf (pg_loads p) end.
